@@ -9,7 +9,7 @@ use rand::Rng;
 use serde_json::{json, Value};
 
 fn out_args(r: Result<candid::Result<IDLArgs>, String>) -> Value {
-    match r { Ok(Ok(a)) => json!({"ok": proj_args(&a)}), Ok(Err(e)) => json!({"err": 1, "msg": e.to_string().chars().take(100).collect::<String>()}), Err(s) => json!({"panic": s}) }
+    match r { Ok(Ok(a)) => json!({"ok": proj_args(&a)}), Ok(Err(e)) => json!({"err": 1, "msg": crate::util::errmsg(&e)}), Err(s) => json!({"panic": s}) }
 }
 pub fn decode_all(b: &[u8], env: &TypeEnv, types: &[Type]) -> Value {
     out_args(guard(|| { let mut cfg = candid::DecoderConfig::new(); cfg.set_decoding_quota(20_000_000); IDLArgs::from_bytes_with_types_with_config(b, env, types, &cfg) }))
@@ -179,18 +179,128 @@ pub fn tlc_enc_case(idx: usize, c: &Value) -> Value {
     r
 }
 
+// ------------------------------------------------------------------ C10
+fn out_val(r: Result<candid::Result<IDLArgs>, String>) -> Value { out_args(r) }
+/// one (env, types, abstract values) triple through annotate / typed encode / decode typed and untyped
+pub fn val_case(idx: usize, envj: Value, env: &TypeEnv, tids: Vec<String>, types: &[Type], vals_abs: Value, args: &IDLArgs, origin: &str) -> Value {
+    let ann = out_val(guard(|| args.clone().annotate_types(false, env, types)));
+    let enc = guard(|| args.to_bytes_with_types(env, types));
+    let (blob, dec_t, dec_u) = match &enc {
+        Ok(Ok(b)) => (bytesj(b), decode_all(b, env, types), out_val(guard(|| IDLArgs::from_bytes(b)))),
+        Ok(Err(_)) => (json!([]), json!({"skip": 1}), json!({"skip": 1})),
+        Err(_) => (json!([]), json!({"skip": 1}), json!({"skip": 1})),
+    };
+    let encres = match &enc { Ok(Ok(_)) => json!({"ok": 1}), Ok(Err(e)) => json!({"err": 1, "msg": crate::util::errmsg(&e)}), Err(s) => json!({"panic": s}) };
+    json!({"idx": idx, "kind": "val", "origin": origin, "env": envj, "types": tids, "vals": vals_abs, "ann": ann, "enc": encres, "blob": blob, "dec_t": dec_t, "dec_u": dec_u})
+}
+pub fn tlc_val_case(idx: usize, c: &Value) -> Value {
+    let envj = c["env"].as_object().unwrap();
+    let a = Abs::new(envj);
+    let env = a.type_env();
+    let tids: Vec<String> = c["wts"].as_array().unwrap().iter().map(|x| x.as_str().unwrap().to_string()).collect();
+    let types: Vec<Type> = tids.iter().map(|t| a.ty(t)).collect();
+    let vals: Vec<IDLValue> = c["vals"].as_array().unwrap().iter().zip(types.iter()).map(|(v, t)| crate::absval::to_idl(v, &env, t)).collect();
+    val_case(idx, c["env"].clone(), &env, tids, &types, c["vals"].clone(), &IDLArgs { args: vals }, "tlc")
+}
+/// near-miss: mutate the abstract value somewhere
+fn mutate_abs(g: &mut crate::gen::G, v: &mut Value) {
+    let k = v["k"].as_str().unwrap_or("").to_string();
+    // descend with some probability
+    let descend = g.rng_range(0, 3) != 0;
+    match k.as_str() {
+        "opt" if descend => return mutate_abs(g, &mut v["v"]),
+        "vec" if descend && !v["vs"].as_array().unwrap().is_empty() => { let n = v["vs"].as_array().unwrap().len(); let i = g.rng_range(0, n); return mutate_abs(g, &mut v["vs"][i]); }
+        "rec" if descend && !v["fs"].as_array().unwrap().is_empty() => { let n = v["fs"].as_array().unwrap().len(); let i = g.rng_range(0, n); return mutate_abs(g, &mut v["fs"][i]["v"]); }
+        "var" if descend => return mutate_abs(g, &mut v["v"]),
+        _ => {}
+    }
+    let choice = g.rng_range(0, 9);
+    *v = match (k.as_str(), choice) {
+        ("fix", 0..=3) => { let n = v["bytes"].as_array().unwrap().len(); let m = [1usize, 2, 4, 8][g.rng_range(0, 4)]; if m == n { json!({"k": "text", "cps": [97]}) } else { json!({"k": "fix", "bytes": vec![7u8; m]}) } }
+        ("rec", 0..=3) if !v["fs"].as_array().unwrap().is_empty() => { let mut w = v.clone(); let n = w["fs"].as_array().unwrap().len(); let i = g.rng_range(0, n); w["fs"].as_array_mut().unwrap().remove(i); w }
+        ("rec", 4..=5) => { let mut w = v.clone(); w["fs"].as_array_mut().unwrap().push(json!({"id": [65535, 65534], "v": {"k": "null"}})); w }
+        ("var", 0..=3) => { let mut w = v.clone(); w["id"] = json!([65535, 65533]); w }
+        ("text", 0..=3) => json!({"k": "vec", "vs": [{"k": "fix", "bytes": [97]}]}),
+        ("vec", 0..=2) => json!({"k": "text", "cps": [97]}),
+        ("num", 0..=2) => { let mut w = v.clone(); w["neg"] = json!(!v["neg"].as_bool().unwrap_or(false) && !v["bits"].as_array().unwrap().is_empty()); w }
+        ("principal", 0..=3) => json!({"k": "service", "b": v["b"]}),
+        ("service", 0..=3) => json!({"k": "principal", "b": v["b"]}),
+        ("null", 0..=3) => json!({"k": "bool", "b": 1}),
+        (_, 4) => json!({"k": "null"}),
+        (_, 5) => json!({"k": "opt", "v": v.clone()}),
+        (_, 6) => json!({"k": "vec", "vs": [v.clone()]}),
+        (_, 7) => json!({"k": "num", "neg": false, "bits": [1]}),
+        _ => json!({"k": "reserved"}),
+    };
+}
+pub fn rand_val_case(idx: usize, g: &mut crate::gen::G, near_miss: bool) -> Value {
+    let m = rand_msg(g, 1);
+    let mut fl = Flat::new(&m.env);
+    let tids: Vec<String> = m.wts.iter().map(|t| fl.ty(t)).collect();
+    let mut abs = proj_args(&m.args);
+    if near_miss {
+        let n = abs.as_array().unwrap().len();
+        let i = g.rng_range(0, n);
+        mutate_abs(g, &mut abs[i]);
+        let vals: Vec<IDLValue> = abs.as_array().unwrap().iter().zip(m.wts.iter()).map(|(v, t)| crate::absval::to_idl(v, &m.env, t)).collect();
+        let args = IDLArgs { args: vals };
+        // what the harness really built (the builder is total; the referee judges *this* value)
+        let built = proj_args(&args);
+        return val_case(idx, json!(fl.nodes), &m.env, tids, &m.wts, built, &args, "nearmiss");
+    }
+    val_case(idx, json!(fl.nodes), &m.env, tids, &m.wts, abs, &m.args, "rand")
+}
+// ------------------------------------------------------------------ C04
+fn sub_verdict(env: &TypeEnv, a: &Type, b: &Type) -> Value {
+    match guard(|| { let mut gm = std::collections::HashSet::new(); candid::types::subtype::subtype_with_config(candid::types::subtype::OptReport::Silence, &mut gm, env, a, b).is_ok() }) { Ok(true) => json!(1), Ok(false) => json!(0), Err(_) => json!(2) }
+}
+/// upgrade chain t0 <: t1 <: ... <: tn with a value of t0: decode directly at tn, and step by step with re-encoding
+pub fn chain_case(idx: usize, g: &mut crate::gen::G) -> Value {
+    let m = rand_msg(g, 1);
+    let env = &m.env;
+    let t0 = m.wts[0].clone();
+    let args = IDLArgs { args: vec![m.args.args[0].clone()] };
+    let bytes0 = match guard(|| args.to_bytes_with_types(env, &[t0.clone()])) { Ok(Ok(b)) => b, _ => m.bytes.clone() };
+    let n = g.rng_range(1, 4);
+    let mut ts = vec![t0.clone()];
+    for _ in 0..n { let last = ts.last().unwrap().clone(); ts.push(g.supertype(env, &last, 3)); }
+    let mut fl = Flat::new(env);
+    let tids: Vec<String> = ts.iter().map(|t| fl.ty(t)).collect();
+    let subs: Vec<Value> = (0..n).map(|i| sub_verdict(env, &ts[i], &ts[i + 1])).collect();
+    let sub_direct = sub_verdict(env, &ts[0], &ts[n]);
+    let direct = decode_all(&bytes0, env, &[ts[n].clone()]);
+    // via: decode at t1, re-encode at t1, decode at t2, ...
+    let mut steps = vec![];
+    let mut blobs = vec![];
+    let mut cur = bytes0.clone();
+    for i in 1..=n {
+        blobs.push(bytesj(&cur));
+        let r = guard(|| IDLArgs::from_bytes_with_types(&cur, env, &[ts[i].clone()]));
+        match r {
+            Ok(Ok(a)) => { steps.push(json!({"ok": proj_args(&a)})); match guard(|| a.to_bytes_with_types(env, &[ts[i].clone()])) { Ok(Ok(b)) => cur = b, Ok(Err(e)) => { steps.push(json!({"reenc_err": e.to_string()})); break; } Err(s) => { steps.push(json!({"panic": s})); break; } } }
+            Ok(Err(e)) => { steps.push(json!({"err": 1, "msg": crate::util::errmsg(&e)})); break; }
+            Err(s) => { steps.push(json!({"panic": s})); break; }
+        }
+    }
+    json!({"idx": idx, "kind": "chain", "env": fl.nodes, "ts": tids, "v": proj_value(&m.args.args[0]), "blob": bytesj(&bytes0), "subs": subs, "sub_direct": sub_direct, "direct": direct, "steps": steps, "blobs": blobs})
+}
+
 pub fn run(o: &Opts) {
     let cases = read_cases(&o.cases);
     let mut out = Out::new();
     let mut idx = 0usize;
     for c in &cases {
-        if idx >= o.start { if c.get("vals").is_some() { out.emit(&tlc_enc_case(idx, c)); } else { out.emit(&tlc_dec_case(idx, c)); } }
+        if idx >= o.start {
+            let mode = o.extra.first().map(|s| s.as_str()).unwrap_or("dec");
+            if mode == "val" { out.emit(&tlc_val_case(idx, c)); }
+            else if c.get("vals").is_some() { out.emit(&tlc_enc_case(idx, c)); } else { out.emit(&tlc_dec_case(idx, c)); }
+        }
         idx += 1;
     }
     let mut g = crate::gen::G::new(o.seed);
     let mode = o.extra.first().map(|s| s.as_str()).unwrap_or("dec");
     for i in 0..o.n {
-        let v = match mode { "enc" => enc_case(idx, &mut g), _ => if i % 10 == 9 { template_dec_case(idx, &mut g) } else if i % 3 == 2 { mut_dec_case(idx, &mut g) } else { rand_dec_case(idx, &mut g) } };
+        let v = match mode { "enc" => enc_case(idx, &mut g), "val" => rand_val_case(idx, &mut g, i % 2 == 1), "chain" => chain_case(idx, &mut g), _ => if i % 10 == 9 { template_dec_case(idx, &mut g) } else if i % 3 == 2 { mut_dec_case(idx, &mut g) } else { rand_dec_case(idx, &mut g) } };
         if idx >= o.start { out.emit(&v); }
         idx += 1;
     }
